@@ -392,6 +392,18 @@ def namespace_case(ctx, r):
             whole = observe(ns.evaluate, copy.deepcopy(o))
         if whole[0] == "ok":
             ctx.count("namespace_whole_ok")
+            # the namespace is its declared members: entries of the caller's section that no member declares play no
+            # part in its value or its keys (each member behaves like its fully-qualified Option, nothing else is read)
+            o2 = U.set_path(U.set_path(o, "NS.UNDECLARED", True), "NS.UNDECLARED_SECTION.Q", 5)
+            with labrea.cache.disabled(), warnings.catch_warnings():
+                warnings.simplefilter("ignore")
+                whole2 = observe(ns.evaluate, copy.deepcopy(o2))
+                k1, k2 = observe(ns.keys, copy.deepcopy(o)), observe(ns.keys, copy.deepcopy(o2))
+            ctx.evaluations += 3
+            if whole2 != whole or k1 != k2:
+                ctx.violation("namespace-reads-undeclared-members", f"the namespace evaluated as a whole gives {short(whole2)} (keys {short(k2)}) once the caller's section holds undeclared entries, "
+                              f"{short(whole)} (keys {short(k1)}) without them", {"options": o2, "plan": repr(plan)[:1500]})
+                return
 
 
 # ---------------------------------------------------------------------------
